@@ -1,6 +1,6 @@
 (* C07 — property theorems only.  Proofs are in C07/Proofs.v (and C07/Digits.v). *)
 From Coq Require Import String ZArith NArith Bool List Ascii.
-From DV Require Import Base.Dec C07.Model C07.Proofs.
+From DV Require Import Base.Dec Base.DecRound C07.Model C07.Proofs C07.Reader C07.ReadBack.
 Import ListNotations.
 Open Scope Z_scope.
 
@@ -29,6 +29,57 @@ Theorem C07_integer_literal_exact : forall ip, all_digits ip = true -> ip <> [] 
   denotes ip = Some (mkdec false (digits_val ip) 0).
 Proof. exact integer_literal_exact. Qed.
 
+(* READ-BACK.  from_plain (C07/Reader.v) models FeelNumber::from_str = decQuadFromString on plain numerals: the datum the
+   text denotes (all digits as coefficient, minus the number of fraction digits as exponent), rounded once to decimal128
+   (round34: 34 digits, half-even; None = not finite -> Err). *)
+Theorem C07_reader_is_denotes_then_round : forall s,
+  from_plain s = match denotes s with Some p => round34 (neg p) (coef p) (expo p) | None => None end.
+Proof. exact from_plain_denotes. Qed.
+
+(* For EVERY decimal128 datum d (in_format: coefficient < 10^34, -6176 <= exponent <= 6111 — all signs, zeros included):
+   the printed text is read back without error, as a decimal128 datum with the same sign and exactly the same value
+   (veq: coefficients equal after cross-scaling).  However long the text is (up to 34 + 6111 digits). *)
+Theorem C07_read_back : forall d, in_format d = true ->
+  exists s d', print d = Some s /\ from_plain s = Some d' /\ veq d' d /\ neg d' = neg d /\ in_format d' = true.
+Proof. exact read_back_equal. Qed.
+
+(* ... and which datum it is: d itself when the exponent is not positive; otherwise reread d (C07/Reader.v) *)
+Theorem C07_read_back_datum : forall d, in_format d = true ->
+  read_back d = Some (reread d) /\ veq (reread d) d /\ neg (reread d) = neg d /\ in_format (reread d) = true.
+Proof. exact read_back_exact. Qed.
+
+(* at most 34 digits from the first non-zero digit on: the reader rounds nothing, it returns the number the text denotes *)
+Theorem C07_read_back_short : forall d, in_format d = true -> printed_digits d <= 34 ->
+  exists s p, print d = Some s /\ denotes s = Some p /\ from_plain s = Some p /\ veq p d.
+Proof. exact read_back_short. Qed.
+
+(* more than 34 digits (a positive exponent, e.g. 1E+40 prints 41 digits): the reader keeps 34 digits and drops exactly the
+   last k = digits - 34 ones; they are among the expo d zeros the printer appended (k <= expo d), so nothing is lost:
+   the result is coef * 10^(expo - k) (34 digits) with exponent k, equal in value *)
+Theorem C07_read_back_long : forall d, in_format d = true -> 34 < printed_digits d ->
+  let k := printed_digits d - 34 in
+  0 < k <= expo d /\
+  read_back d = Some (mkdec (neg d) (coef d * 10 ^ Z.to_N (expo d - k)) k) /\
+  ndigits (coef d * 10 ^ Z.to_N (expo d - k)) = 34%N /\
+  veq (mkdec (neg d) (coef d * 10 ^ Z.to_N (expo d - k)) k) d.
+Proof. exact read_back_long. Qed.
+
+Example C07_read_back_examples :
+  read_back (mkdec false 1 40) = Some (mkdec false (10 ^ 33) 7) /\ printed_digits (mkdec false 1 40) = 41 /\
+  read_back (mkdec true 1230 (-2)) = Some (mkdec true 1230 (-2)) /\
+  read_back (mkdec true 0 3) = Some (mkdec true 0 0) /\
+  read_back (mkdec false 15 (-8)) = Some (mkdec false 15 (-8)) /\
+  read_back (mkdec false 12 32) = Some (mkdec false (12 * 10 ^ 32) 0) /\
+  read_back (mkdec false 12 33) = Some (mkdec false (12 * 10 ^ 32) 1).
+Proof. exact read_back_examples. Qed.
+
+(* the hypothesis in_format is needed: a 35-digit coefficient (not a decimal128 datum) is rounded by the reader *)
+Example C07_read_back_needs_format :
+  read_back (mkdec false (10 ^ 34 + 1) 0) = Some (mkdec false (10 ^ 33) 1) /\
+  veqb (mkdec false (10 ^ 33) 1) (mkdec false (10 ^ 34 + 1) 0) = false /\
+  in_format (mkdec false (10 ^ 34 + 1) 0) = false.
+Proof. exact read_back_needs_format. Qed.
+
 (* the function at the pinned commit violated the property on two classes *)
 Theorem C07_print_orig_refuted :
   (exists d s, print_orig d = Some s /\ is_plain s = false) /\
@@ -47,5 +98,12 @@ Print Assumptions C07_no_underflow.
 Print Assumptions C07_print_render.
 Print Assumptions C07_literal_exact.
 Print Assumptions C07_integer_literal_exact.
+Print Assumptions C07_reader_is_denotes_then_round.
+Print Assumptions C07_read_back.
+Print Assumptions C07_read_back_datum.
+Print Assumptions C07_read_back_short.
+Print Assumptions C07_read_back_long.
+Print Assumptions C07_read_back_examples.
+Print Assumptions C07_read_back_needs_format.
 Print Assumptions C07_print_orig_refuted.
 Print Assumptions C07_nonvacuous.
